@@ -314,7 +314,11 @@ func (ts *tableSet) Size() int {
 func (ts *tableSet) append(ctx context.Context, fatalBehavior dherrors.FatalBehavior, mt *memTable, checker refCheck, keeper keeperF, hasCache *lru.TwoQueueCache[hash.Hash, struct{}], stats *Stats) (*tableSet, gcBehavior, error) {
 	addrs := hash.NewHashSet()
 	for _, getAddrs := range mt.getChildAddrs {
-		getAddrs(ctx, addrs, func(h hash.Hash) bool { return hasCache.Contains(h) })
+		// A chunk whose references cannot be walked cannot be reference-checked; fail the
+		// write rather than treating the chunk as if it had no references.
+		if err := getAddrs(ctx, addrs, func(h hash.Hash) bool { return hasCache.Contains(h) }); err != nil {
+			return nil, gcBehavior_Continue, err
+		}
 	}
 	mt.addChildRefs(addrs)
 
